@@ -4,10 +4,10 @@ package vval
 
 import (
 	"context"
-	"os"
 	"encoding/hex"
 	"fmt"
 	"math/rand"
+	"os"
 
 	"verif/rig"
 )
